@@ -106,8 +106,7 @@ def main():
                         order = ['inaccessible-or-deleted-destructor', 'const-member-without-initialiser', 'virtual-base']
                     elif 'copy_constructible' in wrong:
                         order = ['copy-ctor-nonconst-ref', 'inaccessible-or-deleted-destructor', 'rvalue-reference-member', 'virtual-base']
-                    elif 'destructible' in wrong:
-                        order = ['inaccessible-or-deleted-destructor']
+                    # (a wrong 'destructible' is never excused: the recorded finding is about default/copy constructibility only)
                     for feat in order:
                         if feat in present:
                             cause = feat
